@@ -94,8 +94,16 @@ type outcome struct {
 	hung     bool
 }
 
+// callCtx is the context handed to targets that take one; it is cancelled when
+// the guarded call gives up, so that a resolver stuck in a loop that polls its
+// context stops instead of running on in the background.
+var callCtx = context.Background()
+
 func guarded(name string, fn func(in) bool, x in, budget time.Duration) outcome {
 	writeJournal(name, x)
+	ctx, cancel := context.WithCancel(context.Background())
+	callCtx = ctx
+	defer cancel()
 	done := make(chan outcome, 1)
 	go func() {
 		var o outcome
@@ -108,10 +116,12 @@ func guarded(name string, fn func(in) bool, x in, budget time.Duration) outcome 
 		}()
 		o.accepted = fn(x)
 	}()
+	tm := time.NewTimer(budget)
+	defer tm.Stop()
 	select {
 	case o := <-done:
 		return o
-	case <-time.After(budget):
+	case <-tm.C:
 		return outcome{hung: true}
 	}
 }
@@ -725,6 +735,18 @@ func TestCorpus(t *testing.T) {
 		var c callCase
 		if err := json.Unmarshal(fd.Witness, &c); err != nil {
 			t.Fatalf("bad witness %s: %v", fd.ID, err)
+		}
+		// Witnesses of non-termination are replayed with a short budget.
+		if fd.Class == "NPMAliasCycleNonTermination" {
+			group, name, _ := strings.Cut(c.Target, "/")
+			for _, tg := range targets[group] {
+				if tg.name == name {
+					if o := guarded(c.Target, tg.fn, c.Input, 3*time.Second); o.hung {
+						rec.Known(fd.ID, fd.Text+" [no result within 3 s]")
+					}
+				}
+			}
+			continue
 		}
 		if obs := replayCase(c); obs != "" {
 			rec.Known(fd.ID, fd.Text+" ["+firstLine(obs)+"]")
